@@ -89,6 +89,27 @@ func (fx *Fx) evalCallMulti(st *State, call *ast.CallExpr) []callResult {
 		}
 		return fx.inlineDecl(st, fd, recv, args)
 	}
+	// an abstract callee may panic where the function under verification says so (maypanic): explore that exit too
+	if fx.rootSpec != nil && fx.rootSpec.MayPanic && fx.classifyCall(st, call) == callAbstract {
+		pst := st.clone()
+		var pargs []Val
+		for _, a := range call.Args {
+			pargs = append(pargs, fx.eval(pst, a, false))
+		}
+		// the call was made (it is in the trace) but never returned
+		precv, pname := "nil", fx.funcValueName(call.Fun)
+		if se, ok := ast.Unparen(call.Fun).(*ast.SelectorExpr); ok {
+			if sel, ok := fx.pkg.info.Selections[se]; ok && sel.Kind() == types.MethodVal {
+				precv = fx.eval(pst, se.X, false).X
+			}
+		}
+		fx.abstractCallQuiet(pst, precv, pname, pargs)
+		pv := fx.d.freshConst("panicval", SRef)
+		pst.assume(not(app("=", pv, "nil")))
+		pst.panicVal = pv
+		vals := fx.evalCall(st, call, false)
+		return []callResult{{st: st, vals: vals, kind: kNormal}, {st: pst, kind: kPanic}}
+	}
 	vals := fx.evalCall(st, call, false)
 	return []callResult{{st: st, vals: vals, kind: kNormal}}
 }
